@@ -2542,15 +2542,15 @@ def extracted_sources(repo: Path) -> dict:
             if tg.get('enum'):
                 enum = (tg['enum'][1], parse_enum(tg['enum'][0], (repo / tg['enum'][0]).read_text(), tg['enum'][1]))
             deps = dependencies(tg['file'], f.src, f) if tg.get('with_deps') else []
-            out[tg['key']] = dict(text=f.text, deps=deps, hash=f.hash, enum=enum, func=tg['func'], lean=tg['lean'])
+            ent = dict(text=f.text, deps=deps, hash=f.hash, enum=enum, func=tg['func'], lean=tg['lean'])
             if isinstance(tg.get('select'), dict):          # the selected statements, as they stand in the source
                 pr = Parser(f.body_toks, tg['key'], tparams={n: 'T' for n in tg.get('tparams', [])})
                 pr.float_types, pr.allow_float = set(tg.get('float') or []), bool(tg.get('float'))
                 pr.skip_prefixes = [tuple(x) for x in (tg.get('skip_prefixes') or [])]
                 select_stmts(pr, tg['key'], tg['select'])
-                out[tg['key']]['slice'] = f.src[pr.sel_span[0]:pr.sel_span[1]]
+                ent['slice'] = f.src[pr.sel_span[0]:pr.sel_span[1]]
                 helpers = []                                # functions of the same file the selected statements call
-                stoks = tokenize(out[tg['key']]['slice'], tg['file'])
+                stoks = tokenize(ent['slice'], tg['file'])
                 for k, t in enumerate(stoks):
                     if t.kind == 'id' and t.text != f.name and t.text not in [h.name for h in helpers] \
                             and k + 1 < len(stoks) and stoks[k + 1].text == '(' and (k == 0 or stoks[k - 1].text not in ('.', '->', '::')) \
@@ -2558,7 +2558,8 @@ def extracted_sources(repo: Path) -> dict:
                         hs = find_functions(tg['file'], f.src, t.text)
                         if len(hs) == 1:
                             helpers.append(hs[0])
-                out[tg['key']]['helpers'] = [h.text for h in helpers]
+                ent['helpers'] = [h.text for h in helpers]
+            out[tg['key']] = ent                            # (a target whose statements cannot be selected is absent)
         except TranslationError:
             continue
     return out
